@@ -272,6 +272,21 @@ def checkPR (s : St) (aband : List Nat) (c : Chunk) : List Nat :=
 /-- bytes in the current packet after the "does not fit: start a new packet and retry" step of the gather loops -/
 def bip0 (full : Bool) (bip : Int) : Int := if bip != 0 && full then 0 else bip
 
+/-- what a gather loop does with the chunk it looks at -/
+inductive Take (B : Type) where
+  | skip                          -- `continue`
+  | stop (b : B)                  -- `break` / `return`
+  | take (b : B) (bip : Int)      -- send it; `bip` = bytes in the current packet afterwards
+
+/-- the common tail of the three gather loops: MTU bundling bookkeeping, then the burst budget.
+`full` = "does not fit behind what the packet already holds", `tooBig` = "does not fit in a packet of its own" -/
+def packAllow {B : Type} (allow : B → Int → Bool × B) (b : B) (abip cb : Int) (full tooBig : Bool) : Take B :=
+  let bip := bip0 full abip
+  if bip == 0 && tooBig then .stop b
+  else
+    let r := allow b (if bip == 0 then cb + hdr else cb)
+    if !r.1 then .stop r.2 else .take r.2 ((if bip == 0 then hdr else bip) + cb)
+
 structure LoopAcc (B : Type) where
   b : B
   bytesToSend : Int := 0
@@ -280,55 +295,44 @@ structure LoopAcc (B : Type) where
   out : List Chunk := []
   aband : List Nat
 
-/-- body of `getDataPacketsToRetransmit`'s loop over the in-flight chunks from `cumulativeTSNAckPoint+1` on -/
-def rtxLoop {B : Type} (s : St) (allow : B → Int → Bool × B) (awnd : BitVec 32) :
+/-- the scan `for i := 0; ; i++ { c := get(cumAck+1+i) … }` over the in-flight chunks, shared by
+`getDataPacketsToRetransmit` and `gatherOutboundFastRetransmissionPackets`: `dec` decides, `upd` updates a taken chunk -/
+def scanLoop {B : Type} (s : St) (dec : Int → LoopAcc B → Chunk → Take B) (upd : Chunk → Chunk) :
     Int → List Chunk → LoopAcc B → List Chunk × LoopAcc B
   | _, [], a => ([], a)
   | i, c :: rest, a =>
-    if !c.retransmit then
-      let (r, a') := rtxLoop s allow awnd (i+1) rest a
-      (c :: r, a')
-    else if !(rtx_isProbe i s.rwnd (c.len : Int)) && rtx_exceedsWindow a.bytesToSend (c.len : Int) awnd then (c :: rest, a)
-    else
-      let cb := c.sizeInPacket s.cfg.useInterleaving
-      let bip := bip0 (rtx_packetFull a.bip cb s.cfg.mtu) a.bip
-      if bip == 0 && rtx_firstTooBig (cb + hdr) s.cfg.mtu then (c :: rest, a)
-      else
-        let (ok, b') := allow a.b (if bip == 0 then cb + hdr else cb)
-        if !ok then (c :: rest, { a with b := b' })
-        else
-          let c' := { c with retransmit := false, nSent := c.nSent + 1, since := s.now }
-          let (r, a') := rtxLoop s allow awnd (i+1) rest
-            { a with b := b', bytesToSend := a.bytesToSend + (c.len : Int), bip := (if bip == 0 then hdr else bip) + cb,
-                     out := a.out ++ [c'], aband := checkPR s a.aband c' }
-          (c' :: r, a')
+    match dec i a c with
+    | .skip =>
+      let r := scanLoop s dec upd (i+1) rest a
+      (c :: r.1, r.2)
+    | .stop b => (c :: rest, { a with b := b })
+    | .take b bip =>
+      let c' := upd c
+      let r := scanLoop s dec upd (i+1) rest
+        { a with b := b, bytesToSend := a.bytesToSend + (c.len : Int), bip := bip, size := a.size + c.sizeInPacket s.cfg.useInterleaving,
+                 out := a.out ++ [c'], aband := checkPR s a.aband c' }
+      (c' :: r.1, r.2)
 
-/-- body of the loop of `gatherOutboundFastRetransmissionPackets` -/
-def fastLoop {B : Type} (s : St) (allow : B → Int → Bool × B) (wnd : Int) :
-    List Chunk → LoopAcc B → List Chunk × LoopAcc B
-  | [], a => ([], a)
-  | c :: rest, a =>
-    if c.acked || isAbandoned a.aband s.allInflightMsgs c then
-      let (r, a') := fastLoop s allow wnd rest a
-      (c :: r, a')
-    else if fastRtx_skip c.nSent c.missIndicator then
-      let (r, a') := fastLoop s allow wnd rest a
-      (c :: r, a')
-    else
-      let cb := c.sizeInPacket s.cfg.useInterleaving
-      if fastRtx_exceedsWnd wnd a.size cb then (c :: rest, a)
-      else
-        let bip := bip0 (fastRtx_packetFull a.bip cb s.cfg.mtu) a.bip
-        if bip == 0 && fastRtx_firstTooBig (cb + hdr) s.cfg.mtu then (c :: rest, a)
-        else
-          let (ok, b') := allow a.b (if bip == 0 then cb + hdr else cb)
-          if !ok then (c :: rest, { a with b := b' })
-          else
-            let c' := { c with nSent := c.nSent + 1, since := s.now }
-            let (r, a') := fastLoop s allow wnd rest
-              { a with b := b', bip := (if bip == 0 then hdr else bip) + cb, size := a.size + cb,
-                       out := a.out ++ [c'], aband := checkPR s a.aband c' }
-            (c' :: r, a')
+/-- loop body of `getDataPacketsToRetransmit` -/
+def rtxDecide {B : Type} (s : St) (allow : B → Int → Bool × B) (awnd : BitVec 32) (i : Int) (a : LoopAcc B) (c : Chunk) : Take B :=
+  if !c.retransmit then .skip
+  else if !(rtx_isProbe i s.rwnd (c.len : Int)) && rtx_exceedsWindow a.bytesToSend (c.len : Int) awnd then .stop a.b
+  else
+    let cb := c.sizeInPacket s.cfg.useInterleaving
+    packAllow allow a.b a.bip cb (rtx_packetFull a.bip cb s.cfg.mtu) (rtx_firstTooBig (cb + hdr) s.cfg.mtu)
+
+def rtxUpd (s : St) (c : Chunk) : Chunk := { c with retransmit := false, nSent := c.nSent + 1, since := s.now }
+
+/-- loop body of `gatherOutboundFastRetransmissionPackets` -/
+def fastDecide {B : Type} (s : St) (allow : B → Int → Bool × B) (wnd : Int) (_i : Int) (a : LoopAcc B) (c : Chunk) : Take B :=
+  if c.acked || isAbandoned a.aband s.allInflightMsgs c then .skip
+  else if fastRtx_skip c.nSent c.missIndicator then .skip
+  else
+    let cb := c.sizeInPacket s.cfg.useInterleaving
+    if fastRtx_exceedsWnd wnd a.size cb then .stop a.b
+    else packAllow allow a.b a.bip cb (fastRtx_packetFull a.bip cb s.cfg.mtu) (fastRtx_firstTooBig (cb + hdr) s.cfg.mtu)
+
+def fastUpd (s : St) (c : Chunk) : Chunk := { c with nSent := c.nSent + 1, since := s.now }
 
 /-- the part of the in-flight list the scans `for i := 0; ; i++ { get(cumAck+1+i) … }` visit: from the offset of
 `cumAck+1` to the end (nothing when `get` fails at once) -/
@@ -373,6 +377,26 @@ structure PopAcc (B : Type) where
   admits : List Admit := []
   sisToReset : List (BitVec 16) := []
 
+/-- loop body of `popPendingDataChunksToSend` for a chunk with user data (`skip` is not used) -/
+def popDecide {B : Type} (s : St) (allow : B → Int → Bool × B) (a : PopAcc B) (c : Chunk) : Take B :=
+  let dataLen := BitVec.ofNat 32 c.len
+  if popPending_exceedsCwnd s.infBytes dataLen s.cwnd then .stop a.b
+  else if popPending_exceedsRwnd dataLen s.rwnd then .stop a.b
+  else
+    let cb := c.sizeInPacket s.cfg.useInterleaving
+    packAllow allow a.b a.bip cb (popPending_packetFull a.bip cb s.cfg.mtu) (popPending_firstTooBig (cb + hdr) s.cfg.mtu)
+
+/-- `a.setRWND(a.RWND() - dataLen)` -/
+def chargeSend (s : St) (c : Chunk) : St :=
+  { s with rwnd := popPending_rwndAfterSend s.rwnd (BitVec.ofNat 32 c.len),
+           wrapWin := s.wrapWin || decide (s.infBytes < 0 ∨ s.infBytes + (c.len : Int) ≥ 2^32) }
+
+/-- charge the peer window, then `movePendingDataChunkToInflightQueue` -/
+def admitChunk (s : St) (i : Nat) (c : Chunk) : St × Chunk := move (chargeSend s c) i c
+
+def mkAdmit (s : St) (c' : Chunk) (probe : Bool) : Admit :=
+  { chunk := c', infBefore := s.infBytes, cwnd := s.cwnd, rwndBefore := s.rwnd, nInflightBefore := s.inflight.length, probe := probe }
+
 /-- the `for` loop of `popPendingDataChunksToSend` (`fuel` = pending chunks + 1: every iteration that does not end the loop pops one) -/
 def popLoop {B : Type} (allow : B → Int → Bool × B) : Nat → St → List Nat → PopAcc B → St × List Nat × PopAcc B
   | 0, s, sel, a => (s, sel, a)
@@ -380,26 +404,22 @@ def popLoop {B : Type} (allow : B → Int → Bool × B) : Nat → St → List N
     match peek s sel with
     | none => (s, sel, a)
     | some (i, c) =>
-      let dataLen := BitVec.ofNat 32 c.len
-      if dataLen == 0 then
+      if BitVec.ofNat 32 c.len == 0 then
         popLoop allow fuel (popPend s i c) sel.tail { a with sisToReset := a.sisToReset ++ [c.si] }
-      else if popPending_exceedsCwnd s.infBytes dataLen s.cwnd then (s, sel, a)
-      else if popPending_exceedsRwnd dataLen s.rwnd then (s, sel, a)
-      else
-        let cb := c.sizeInPacket s.cfg.useInterleaving
-        let bip := bip0 (popPending_packetFull a.bip cb s.cfg.mtu) a.bip
-        if bip == 0 && popPending_firstTooBig (cb + hdr) s.cfg.mtu then (s, sel, a)
-        else
-          let (ok, b') := allow a.b (if bip == 0 then cb + hdr else cb)
-          if !ok then (s, sel, { a with b := b' })
-          else
-            let s1 := { s with rwnd := popPending_rwndAfterSend s.rwnd dataLen,
-                               wrapWin := s.wrapWin || decide (s.infBytes < 0 ∨ s.infBytes + (c.len : Int) ≥ 2^32) }
-            let (s2, c') := move s1 i c
-            popLoop allow fuel s2 sel.tail
-              { a with b := b', bip := (if bip == 0 then hdr else bip) + cb,
-                       admits := a.admits ++ [{ chunk := c', infBefore := s.infBytes, cwnd := s.cwnd, rwndBefore := s.rwnd,
-                                                nInflightBefore := s.inflight.length, probe := false }] }
+      else match popDecide s allow a c with
+        | .skip => (s, sel, a)
+        | .stop b => (s, sel, { a with b := b })
+        | .take b bip =>
+          let r := admitChunk s i c
+          popLoop allow fuel r.1 sel.tail { a with b := b, bip := bip, admits := a.admits ++ [mkAdmit s r.2 false] }
+
+/-- the probe is charged against the peer window, never below zero -/
+def chargeProbe (s : St) (c : Chunk) : St :=
+  let dataLen := BitVec.ofNat 32 c.len
+  { s with rwnd := (if popPending_probeExhaustsRwnd dataLen s.rwnd then 0 else popPending_rwndAfterProbe s.rwnd dataLen),
+           wrapWin := s.wrapWin || decide (c.len ≥ 2^32) }
+
+def admitProbe (s : St) (i : Nat) (c : Chunk) : St × Chunk := move (chargeProbe s c) i c
 
 /-- the zero-window probe of `popPendingDataChunksToSend` -/
 def probe {B : Type} (allow : B → Int → Bool × B) (s : St) (sel : List Nat) (a : PopAcc B) : St × List Nat × PopAcc B :=
@@ -408,17 +428,13 @@ def probe {B : Type} (allow : B → Int → Bool × B) (s : St) (sel : List Nat)
     | none => (s, sel, a)
     | some (i, c) =>
       if c.len > 0 then
-        let cb := c.sizeInPacket s.cfg.useInterleaving
-        let addBytes := hdr + cb
+        let addBytes := hdr + c.sizeInPacket s.cfg.useInterleaving
         if popPending_probeAllowedSize addBytes s.cfg.mtu true then      -- `&&` short-circuits: the budget is asked only if the size fits
-          let (ok, b') := allow a.b addBytes
-          if popPending_probeAllowedSize addBytes s.cfg.mtu ok then
-            let dataLen := BitVec.ofNat 32 c.len
-            let s1 := { s with rwnd := (if popPending_probeExhaustsRwnd dataLen s.rwnd then 0 else popPending_rwndAfterProbe s.rwnd dataLen) }
-            let (s2, c') := move s1 i c
-            (s2, sel.tail, { a with b := b', admits := a.admits ++ [{ chunk := c', infBefore := s.infBytes, cwnd := s.cwnd, rwndBefore := s.rwnd,
-                                                                      nInflightBefore := s.inflight.length, probe := true }] })
-          else (s, sel, { a with b := b' })
+          let r := allow a.b addBytes
+          if popPending_probeAllowedSize addBytes s.cfg.mtu r.1 then
+            let m := admitProbe s i c
+            (m.1, sel.tail, { a with b := r.2, admits := a.admits ++ [mkAdmit s m.2 true] })
+          else (s, sel, { a with b := r.2 })
         else (s, sel, a)
       else (s, sel, a)
   else (s, sel, a)
@@ -447,16 +463,17 @@ def GatherOut.packets (o : GatherOut) : List (List Chunk) := o.rtx ++ o.fresh ++
 /-- `getDataPacketsToRetransmit` -/
 def gatherRtx (s : St) (orc : Oracle) : St × List Chunk × orc.B :=
   let awnd := rtx_awnd s.cwnd s.rwnd
-  let (pre, suf) := scanSplit s
-  let (suf', a) := rtxLoop s orc.allow awnd 0 suf { b := orc.b, aband := s.abandonedMsgs }
-  ({ s with inflight := pre ++ suf', abandonedMsgs := a.aband }, a.out, a.b)
+  let pre := (scanSplit s).1
+  let suf := (scanSplit s).2
+  let r := scanLoop s (rtxDecide s orc.allow awnd) (rtxUpd s) 0 suf { b := orc.b, aband := s.abandonedMsgs }
+  ({ s with inflight := pre ++ r.1, abandonedMsgs := r.2.aband }, r.2.out, r.2.b)
 
 /-- `popPendingDataChunksToSend` -/
 def gatherNew {B : Type} (s : St) (allow : B → Int → Bool × B) (b : B) (sel : List Nat) : St × PopAcc B :=
   if s.penChunks > 0 then
-    let (s1, sel1, a1) := popLoop allow (s.pending.length + 1) s sel { b := b }
-    let (s2, _, a2) := probe allow s1 sel1 a1
-    (s2, a2)
+    let r1 := popLoop allow (s.pending.length + 1) s sel { b := b }
+    let r2 := probe allow r1.1 r1.2.1 r1.2.2
+    (r2.1, r2.2.2)
   else (s, { b := b })
 
 /-- `gatherOutboundFastRetransmissionPackets` -/
@@ -464,25 +481,26 @@ def gatherFast {B : Type} (s : St) (allow : B → Int → Bool × B) (b : B) : S
   if !s.willRetransmitFast then (s, [])
   else
     let s0 := { s with willRetransmitFast := false }
-    let (pre, suf) := scanSplit s0
-    let (suf', a) := fastLoop s0 allow (fastRtx_wnd s.cfg.mtu s.cfg.fastRtxWnd) suf { b := b, size := hdr, aband := s.abandonedMsgs }
-    ({ s0 with inflight := pre ++ suf', abandonedMsgs := a.aband }, a.out)
+    let pre := (scanSplit s0).1
+    let suf := (scanSplit s0).2
+    let r := scanLoop s0 (fastDecide s0 allow (fastRtx_wnd s.cfg.mtu s.cfg.fastRtxWnd)) (fastUpd s0) 0 suf { b := b, size := hdr, aband := s.abandonedMsgs }
+    ({ s0 with inflight := pre ++ r.1, abandonedMsgs := r.2.aband }, r.2.out)
 
 /-- the DATA part of `gatherOutbound` in state established (retransmissions, new data, fast retransmissions,
 then `gatherOutboundForwardTSNPackets` clears its flag); nothing in other states -/
 def gather (s : St) (orc : Oracle) (sel : List Nat) : St × GatherOut :=
   if !s.established then (s, {})
   else
-    let (s1, rtxChunks, b1) := gatherRtx s orc
-    let (s2, a2) := gatherNew s1 orc.allow b1 sel
-    let newChunks := a2.admits.map (·.chunk)
-    let (s3, fastChunks) := gatherFast s2 orc.allow a2.b
+    let r1 := gatherRtx s orc
+    let r2 := gatherNew r1.1 orc.allow r1.2.2 sel
+    let newChunks := r2.2.admits.map (·.chunk)
+    let r3 := gatherFast r2.1 orc.allow r2.2.b
     let il := s.cfg.useInterleaving
-    ({ s3 with willSendForwardTSN := false },
-     { rtx := bundle s.cfg.mtu il rtxChunks [] hdr,
+    ({ r3.1 with willSendForwardTSN := false },
+     { rtx := bundle s.cfg.mtu il r1.2.1 [] hdr,
        fresh := if newChunks.isEmpty then [] else bundle s.cfg.mtu il newChunks [] hdr,
-       fast := if fastChunks.isEmpty then [] else bundle s.cfg.mtu il fastChunks [] hdr,
-       admits := a2.admits, sisToReset := a2.sisToReset })
+       fast := if r3.2.isEmpty then [] else bundle s.cfg.mtu il r3.2 [] hdr,
+       admits := r2.2.admits, sisToReset := r2.2.sisToReset })
 
 /-! ## SACK -/
 
@@ -608,18 +626,24 @@ def missLoop (htna : BitVec 32) : Nat → St → (tsn maxTSN : BitVec 32) → St
         else missLoop htna fuel s (tsn + 1) maxTSN
     else (s, true)
 
+/-- first half of `processFastRetransmission`: the miss-indication pass, if this SACK qualifies for one -/
+def frLoop (s : St) (cum : BitVec 32) (gaps : List (BitVec 16 × BitVec 16)) (htna : BitVec 32) (advanced : Bool) : St × Bool :=
+  if !s.inFastRecovery || (s.inFastRecovery && advanced) then
+    missLoop htna (s.inflight.length + 1) s (cum + 1)
+      (if !s.inFastRecovery then htna
+       else match gaps.getLast? with
+        | some (_, en) => cum + BitVec.setWidth 32 en
+        | none => cum)
+  else (s, true)
+
+/-- second half: `if a.inFastRecovery && cumTSNAckPointAdvanced { a.willRetransmitFast = true }` -/
+def frPost (r : St × Bool) (advanced : Bool) : St × Bool :=
+  if !r.2 then (r.1, false)
+  else (if r.1.inFastRecovery && advanced then { r.1 with willRetransmitFast := true } else r.1, true)
+
 /-- `processFastRetransmission` -/
 def fastRetransCheck (s : St) (cum : BitVec 32) (gaps : List (BitVec 16 × BitVec 16)) (htna : BitVec 32) (advanced : Bool) : St × Bool :=
-  let (s1, ok) :=
-    if !s.inFastRecovery || (s.inFastRecovery && advanced) then
-      let maxTSN := if !s.inFastRecovery then htna
-        else match gaps.getLast? with
-          | some (_, en) => cum + BitVec.setWidth 32 en
-          | none => cum
-      missLoop htna (s.inflight.length + 1) s (cum + 1) maxTSN
-    else (s, true)
-  if !ok then (s1, false)
-  else (if s1.inFastRecovery && advanced then { s1 with willRetransmitFast := true } else s1, true)
+  frPost (frLoop s cum gaps htna advanced) advanced
 
 /-- RFC 3758 C2: advance `advancedPeerTSNAckPoint` over abandoned chunks -/
 def advLoop : Nat → St → St
@@ -640,20 +664,33 @@ def applyMarks (s : St) (marks : List (BitVec 32)) : St :=
 inductive SackRes | ok | stale | notEstablished | rejected | failedLate
   deriving BEq, Repr, Inhabited
 
+/-- the end of `processAcknowledgement`: queue and counters as left by the two loops, the cumulative point,
+congestion control, then the per-stream releases -/
+def ackApply (s : St) (cum : BitVec 32) (g : GapAcc) (inFR : Bool) : St :=
+  let s1 := { s with inflight := g.q, infBytes := g.infBytes, inFastRecovery := inFR }
+  releaseAll g.rel (if sna32LT s.cumAck cum then onCumAdvanced { s1 with cumAck := cum } (relTotal g.rel) else s1)
+
 /-- `processAcknowledgement` after the validation: pops, gap marks, cumulative point, congestion control, releases.
 `none`: an error after the state was already modified (unreachable when the in-flight TSNs are consecutive). -/
 def ackPhase (s : St) (cum : BitVec 32) (gaps : List (BitVec 16 × BitVec 16)) : Option (St × BitVec 32 × Bool) :=
   match popCum s.fastRecoverExitPoint s.inflight (s.cumAck + 1) cum { infBytes := s.infBytes, rel := [], inFR := s.inFastRecovery } with
   | none => none
-  | some (q1, a1) =>
-    match markGaps cum gaps { q := q1, infBytes := a1.infBytes, rel := a1.rel, htna := cum } with
+  | some r =>
+    match markGaps cum gaps { q := r.1, infBytes := r.2.infBytes, rel := r.2.rel, htna := cum } with
     | none => none
-    | some g =>
-      let s1 := { s with inflight := g.q, infBytes := g.infBytes, inFastRecovery := a1.inFR }
-      let total := relTotal g.rel
-      let advanced := sna32LT s.cumAck cum
-      let s2 := if advanced then onCumAdvanced { s1 with cumAck := cum } total else s1
-      some (releaseAll g.rel s2, g.htna, advanced)
+    | some g => some (ackApply s cum g r.2.inFR, g.htna, sna32LT s.cumAck cum)
+
+/-- RFC 4960 6.2.1 D ii): rwnd := a_rwnd − bytes still outstanding (not below zero) -/
+def setPeerWindow (s : St) (arwnd : BitVec 32) : St :=
+  let bo := BitVec.ofInt 32 s.infBytes
+  { s with rwnd := (if sack_windowFull bo arwnd then 0 else sack_rwndArg arwnd bo), lastArwnd := arwnd,
+           wrapWin := s.wrapWin || decide (s.infBytes < 0 ∨ s.infBytes ≥ 2^32) }
+
+/-- the partial-reliability part of `finishAcknowledgement` -/
+def prStep (s : St) : St :=
+  if s.cfg.prEnabled then
+    advancePeerAck (if sna32LT s.advPeerAck s.cumAck then { s with advPeerAck := s.cumAck } else s)
+  else s
 
 /-- `handleSack` (state established); `marks` = what `onRackAfterSACK` marked lost -/
 def sack (s : St) (cum arwnd : BitVec 32) (gaps : List (BitVec 16 × BitVec 16)) (marks : List (BitVec 32)) : St × SackRes :=
@@ -662,17 +699,10 @@ def sack (s : St) (cum arwnd : BitVec 32) (gaps : List (BitVec 16 × BitVec 16))
   else if !validate s cum gaps then (s, .rejected)
   else match ackPhase s cum gaps with
     | none => (s, .failedLate)                      -- see `ackPhase`; the model does not describe the half-updated state
-    | some (s2, htna, advanced) =>
-      let bo := BitVec.ofInt 32 s2.infBytes
-      let s3 := { s2 with rwnd := (if sack_windowFull bo arwnd then 0 else sack_rwndArg arwnd bo), lastArwnd := arwnd,
-                          wrapWin := s2.wrapWin || decide (s2.infBytes < 0 ∨ s2.infBytes ≥ 2^32) }
-      let (s4, ok) := fastRetransCheck s3 cum gaps htna advanced
-      if !ok then (s4, .failedLate)
-      else
-        let s5 := if s4.cfg.prEnabled then
-            advancePeerAck (if sna32LT s4.advPeerAck s4.cumAck then { s4 with advPeerAck := s4.cumAck } else s4)
-          else s4
-        (applyMarks s5 marks, .ok)
+    | some r =>
+      let f := fastRetransCheck (setPeerWindow r.1 arwnd) cum gaps r.2.1 r.2.2
+      if !f.2 then (f.1, .failedLate)
+      else (applyMarks (prStep f.1) marks, .ok)
 
 /-! ## T3 -/
 
